@@ -147,7 +147,8 @@ def check(prop, tier, only_units=None, seed=0):
                 continue
             seen.add(e['id'])
             out_lines.append('KNOWN-FINDING: property=%s %s' % (prop, e['what']))
-        rdir = os.path.join(VERIF, 'replay', 'out')
+        # replay files of runs against a scratch copy (VERIF_REPO: seeded changes) are not records about /repo: keep them out of replay/out
+        rdir = os.path.join(VERIF, 'build', 'seed-replay') if os.environ.get('VERIF_REPO') else os.path.join(VERIF, 'replay', 'out')
         os.makedirs(rdir, exist_ok=True)
         viol_records = []
         for r in list(violations):
@@ -187,6 +188,7 @@ PROOF_KINDS = ('P', 'W')
 
 
 def write_evidence(prop, tier, seed, results, viol_records, known_hits, wall, partial=False):
+    partial = partial or bool(os.environ.get('VERIF_REPO')) or bool(os.environ.get('VERIF_NO_EVIDENCE'))     # evidence is only about /repo itself
     meta = load_json(os.path.join(VERIF, 'tool', 'props.json'), {}).get(prop, {})
     p_units = [r for r in results if r['kind'] in PROOF_KINDS]
     b_units = [r for r in results if r['kind'] not in PROOF_KINDS]
